@@ -170,6 +170,7 @@ type lworld struct {
 	kind  string
 	x     *qx.Exec
 	pbusy [nProd + 1]bool                // producer has an outstanding AddAnyway
+	nx    int                            // goroutines of this world's executor
 	brun  int                            // the goroutine of the burst issued last
 	pp    []qa.Act                       // count model: adds of producers that the model believes blocked
 	busy  [nCons + 1]bool                // consumer has an outstanding Pop
@@ -703,26 +704,53 @@ func dress(kind string, rep int, plan []act) {
 
 var dressRng = rand.New(rand.NewSource(1))
 
+func hasProd(plan []act) bool {
+	for _, a := range plan {
+		if a.Op == "paddw" {
+			return true
+		}
+		for _, x := range a.Acts {
+			if x.Op == "paddw" {
+				return true
+			}
+		}
+	}
+	return false
+}
+
 func newWorld(src, kind string, ccap, rcap, rep int, plan []act, emit func(tr.E)) *lworld {
 	dress(kind, rep, plan)
-	wd := &lworld{emit: emit, q: qa.New(kind, ccap, rcap, rep), kind: kind, x: getExec(nCons + nCall + nProd),
+	nx := nCons + nCall // producer goroutines only for the worlds that have producers
+	if hasProd(plan) {
+		nx += nProd
+	}
+	wd := &lworld{emit: emit, q: qa.New(kind, ccap, rcap, rep), kind: kind, x: getExec(nx), nx: nx,
 		m: qa.Model{Kind: kind, Ccap: ccap, Rcap: rcap}, plan: plan}
 	emit(tr.E{"ev": "reset", "kind": kind, "ccap": qa.Clamp(ccap), "rcap": qa.Clamp(rcap), "src": src, "rep": rep})
 	return wd
 }
 
 // settle waits for global quiescence and keeps the goroutine states seen right after it.
+var dbgSettles, dbgExtra int
+var dbgT0 = time.Now()
+var dbgSettleTime, dbgExtraTime time.Duration
+
 func settle() {
+	t0 := time.Now()
+	defer func() { dbgSettles++; dbgSettleTime += time.Since(t0) }()
 	settleWith(settler)
 	// A producer inside AddAnyway polls (sleep, retry) on the unchanged tree: "asleep" counts as
 	// quiet, but it will try again.  While any producer is inside a call, quiescence is only final
 	// after every sleeper has had its retries: the driver sleeps several poll periods (when its own
 	// timer has fired the earlier ones have too) and waits for quiescence again, twice.
 	if sleepers > 0 {
+		t1 := time.Now()
 		for round := 0; round < 2; round++ {
 			time.Sleep(3*qa.AddwSleep + time.Millisecond)
 			settleWith(settler)
 		}
+		dbgExtra++
+		dbgExtraTime += time.Since(t1)
 	}
 	lastSnap = qx.Goroutines()
 }
@@ -837,6 +865,16 @@ func runBatch(w *tr.W, specs []spec) {
 		worlds[i] = newWorld(sp.src, sp.kind, sp.ccap, sp.rcap, sp.rep, sp.plan,
 			func(e tr.E) { bufs[i] = append(bufs[i], e) })
 	}
+	// goroutines idling in the pool make every snapshot of the runtime dearer: executors of a size
+	// this batch does not use are ended
+	for n, l := range xpool {
+		if len(worlds) > 0 && n != worlds[0].nx {
+			for _, x := range l {
+				x.Stop()
+			}
+			delete(xpool, n)
+		}
+	}
 	batchFlush = func() { // a hang ends the harness: what the worlds recorded so far is kept
 		for i := range worlds {
 			for _, e := range bufs[i] {
@@ -866,7 +904,7 @@ func runBatch(w *tr.W, specs []spec) {
 				sleepers--
 			}
 		}
-		putExec(nCons+nCall+nProd, wd.x)
+		putExec(wd.nx, wd.x)
 		for _, e := range bufs[i] {
 			w.Emit(e)
 		}
@@ -1591,6 +1629,13 @@ func raceParked(rng *rand.Rand, kind string, take bool) (plan []act) {
 				r.Acts, r.RC = append(r.Acts, pop()), append(r.RC, c) // consumers 4, 3: not the sleepers
 			}
 		}
+		if !take && rng.Intn(3) == 0 { // the sleepers are fed and the queue is closed at the same moment
+			r.Acts, r.RC = append(r.Acts, qa.Act{Op: "close"}), append(r.RC, 0)
+			if rng.Intn(2) == 0 { // ... by one goroutine: the adds, then the close, back to back
+				plan = append(plan, act{Act: qa.Act{Op: "burst"}, Acts: r.Acts})
+				continue
+			}
+		}
 		if len(r.Acts) < 2 { // a race needs two calls: a single add is an ordinary step
 			plan = append(plan, act{Act: r.Acts[0]})
 			continue
@@ -1817,13 +1862,7 @@ func main() {
 		}
 	}
 	queue := func(sp spec) {
-		prod := false
-		for _, a := range sp.plan {
-			prod = prod || a.Op == "paddw"
-			for i, x := range a.Acts {
-				prod = prod || (x.Op == "paddw" && i < len(a.RC))
-			}
-		}
+		prod := hasProd(sp.plan)
 		if prod {
 			pbatch = append(pbatch, sp)
 			if len(pbatch) >= *nbatch {
@@ -1922,6 +1961,12 @@ func main() {
 	flush()
 	w.Close()
 
+	for n, l := range xpool { // the priq worlds wait for quiescence one by one: no idle goroutines around
+		for _, x := range l {
+			x.Stop()
+		}
+		delete(xpool, n)
+	}
 	pw := create(*pout)
 	if *pplans != "" {
 		files, _ := filepath.Glob(filepath.Join(*pplans, "*.ndjson"))
@@ -1960,5 +2005,6 @@ func main() {
 	}
 	sw.Close()
 	psw.Close()
+	fmt.Printf("settles=%d (%v) extra=%d (%v)\n", dbgSettles, dbgSettleTime, dbgExtra, dbgExtraTime)
 	fmt.Printf("wake_events=%d priwake_events=%d stress=%d pstress=%d\n", w.N(), pw.N(), sw.N(), psw.N())
 }
